@@ -284,6 +284,11 @@ func initBig() {
 		out := make([]Value, n)
 		if n > 0 {
 			bv := intToBV(8*n, ax)
+			if hasInt2bv(bv, map[*Term]bool{}) {
+				// no structural translation: name the magnitude (0 <= ax < 2^(8n) on this path) by a fresh bit-vector
+				bv = in.ctx.NewVar("mag", 8*n)
+				in.ctx.add(IntCmp("=", mk("bv2nat", -1, bv), ax))
+			}
 			for i := 0; i < n; i++ {
 				hi := 8*(n-i) - 1
 				out[i] = Extract(hi, hi-7, bv)
